@@ -95,6 +95,77 @@ struct PipeWorld : World {
 		}
 	}
 
+	// ------------------------------------------------------------ enumeration: every single cut point
+	// (two-segment delivery with a receive in between) and pure byte-by-byte delivery,
+	// for short message sequences from a boundary corpus x 4 framings x 6 (capacity, offset) pairs
+	static Bytes corpus_msg(unsigned id) {
+		Bytes m;
+		switch (id) {
+		case 0: break;
+		case 1: m = {0}; break;
+		case 2: m = {0x41}; break;
+		case 3: m = {0, 0}; break;
+		case 4: m = {0x41, 0, 0}; break;
+		case 5: m = {0x41, 0, 0, 0x42, 0, 0, 0x43}; break;
+		case 6: for (int i = 0; i < 30; ++i) m.push_back(0x61); m.push_back(0); m.push_back(0); break;
+		case 7: for (int i = 0; i < 31; ++i) m.push_back(0x61); m.push_back(0); m.push_back(0); break;
+		case 8: for (int i = 0; i < 222; ++i) m.push_back((uint8_t) (1 + i % 250)); break;
+		case 9: for (int i = 0; i < 223; ++i) m.push_back((uint8_t) (1 + i % 250)); break;
+		case 10: for (int i = 0; i < 254; ++i) m.push_back((uint8_t) (1 + i % 250)); break;
+		case 11: for (int i = 0; i < 255; ++i) m.push_back((uint8_t) (1 + i % 250)); break;
+		case 12: for (int i = 0; i < 20; ++i) { m.push_back(0x30 + i); m.push_back(0); m.push_back(0); } break;
+		case 13: m = {0x05, 0x04, 0x03, 0xfe}; break;
+		case 14: m = {0xe1, 0xe0, 0xdf}; break;
+		default: for (int i = 0; i < 12; ++i) m.push_back(0); break;
+		}
+		return m;
+	}
+	static const unsigned NSEQ = 24;
+	static void corpus_seq(unsigned sid, std::vector<Bytes> &out) {
+		static const int seqs[NSEQ][3] = {
+			{2, -1, -1}, {0, 2, -1}, {2, 0, 2}, {4, 4, -1}, {5, 2, -1}, {6, 7, -1}, {8, 2, -1}, {10, 2, -1},
+			{1, 3, 0}, {9, 4, -1}, {11, 5, -1}, {12, 2, -1}, {12, 12, -1}, {13, 14, -1}, {15, 2, -1}, {3, 3, 3},
+			{7, 12, 2}, {8, 8, -1}, {10, 10, -1}, {14, 4, 13}, {0, 0, 0}, {2, 15, 5}, {6, 6, 6}, {5, 13, 1}};
+		for (int k = 0; k < 3; ++k) if (seqs[sid][k] >= 0) out.push_back(corpus_msg((unsigned) seqs[sid][k]));
+	}
+	static size_t seq_cuts(unsigned sid) {
+		std::vector<Bytes> ms; corpus_seq(sid, ms);
+		size_t n = 2; for (auto &m : ms) n += m.size() + m.size() / 200 + 3;
+		return n; // cut values 0..n-2 = two-segment delivery at that byte, n-1 = byte by byte
+	}
+	uint64_t sweep_count(int tier) override {
+		uint64_t total = 0;
+		unsigned nseq = NSEQ; (void) tier;
+		for (unsigned s = 0; s < nseq; ++s) total += (uint64_t) seq_cuts(s) * 4 * 6;
+		return total;
+	}
+	void sweep_plan(uint64_t idx, int tier, Plan &p) override {
+		unsigned sid = 0;
+		while (true) { uint64_t n = (uint64_t) seq_cuts(sid) * 24; if (idx < n) break; idx -= n; ++sid; }
+		size_t ncut = seq_cuts(sid);
+		size_t cut = idx % ncut; idx /= ncut;
+		unsigned framing = idx % 4; idx /= 4;
+		static const int capoff[6][2] = {{700, 0}, {700, 690}, {64, 60}, {300, 150}, {16, 5}, {257, 256}};
+		unsigned co = (unsigned) idx % 6;
+		p.set("framing", framing); p.set("layer", 0);
+		p.set("ecap", capoff[co][0]); p.set("eoff", capoff[co][1]);
+		p.set("dcap", capoff[5 - co][0]); p.set("doff", capoff[5 - co][1]);
+		p.set("egrow", 1);
+		corpus_seq(sid, p.blobs);
+		auto add = [&](int kind, int64_t a) { Op o; o.kind = kind; o.a = a; p.ops.push_back(o); };
+		for (size_t i = 0; i < p.blobs.size(); ++i) {
+			for (int rep = 0; rep < 6; ++rep) { if (!p.blobs[i].empty()) add(OP_WPUSH, 1000000); add(OP_WFLUSH, 1000000); }
+			add(OP_WTERM, 0); add(OP_WFLUSH, 1000000); add(OP_WTERM, 0); add(OP_WFLUSH, 1000000);
+		}
+		if (cut == ncut - 1) {
+			for (size_t i = 0; i < ncut + 4; ++i) { add(OP_NET, 1); add(OP_RRECV, 0); }
+		} else {
+			if (cut) add(OP_NET, (int64_t) cut);
+			add(OP_RRECV, 0); add(OP_RRECV, 0);
+			add(OP_NET, 1000000);
+		}
+	}
+
 	// ------------------------------------------------------------ state of one run
 	struct Run {
 		int framing = 0;
